@@ -198,6 +198,17 @@ func invalidCorpus() []CorpusReq {
 		b6["choseToMake"] = L{"a", "b", "c", "d", "e", "f"}
 		add(m+"-alternative-with-undeclared-value-six-considered", set(b6, 3.0, "knownAlternatives", 4, "criteria", "note"))
 	}
+	// an unknown bias name is a violation whatever the entry's other fields say (only a disabled entry is never looked at)
+	for _, pr := range []float64{0, 0.5} {
+		for pos, before := range [][]M{nil, {{"name": "fatigue", "props": M{}}}} {
+			entry := M{"name": "noSuchBias", "applyProbability": pr, "props": M{}}
+			out = append(out, CorpusReq{Name: fmt.Sprintf("invalid/unknown-bias-name-apply-probability-%v-at-%d", pr, pos), Req: withBiases(ws, append(append([]M{}, before...), entry)), Valid: false, Rule: "unknown-bias-name"})
+		}
+	}
+	for i, m := range []string{"noSuchMethod", ""} {
+		r := set(ws, m, "preferenceFunction")
+		out = append(out, CorpusReq{Name: fmt.Sprintf("invalid/unknown-preference-function-%d-with-never-applied-bias", i), Req: withBiases(r, []M{{"name": "fatigue", "applyProbability": 0.0, "props": M{}}}), Valid: false, Rule: "unknown-preference-function-with-bias"})
+	}
 	for i := range out {
 		out[i].Name = fmt.Sprintf("%s", out[i].Name)
 	}
